@@ -105,6 +105,8 @@ pub struct Program {
     /// the relatively placed instances are handed over in `Layout::places` (as `Placeable::Instance`, in listing
     /// order) instead of `Layout::instances`
     pub via_places: bool,
+    /// the leaf cells are wrapped raw layouts (`RawLayoutPtr`) with the same outlines instead of gridded layouts
+    pub raw_cells: bool,
 }
 
 impl Program {
@@ -161,7 +163,7 @@ impl Program {
                 "inner_array": a.inner.as_ref().map(|(c, p)| json!({"count": c, "pitch_xy": [p.0, p.1]})), "innermost_array": a.inner2.as_ref().map(|(c, p)| json!({"count": c, "pitch_xy": [p.0, p.1]})), "reflect_horiz": a.rh, "reflect_vert": a.rv, "loc": [a.at.0, a.at.1]}))
             .collect();
         let cells: Vec<Value> = self.cells.iter().enumerate().map(|(i, c)| json!({"name": format!("c{i}"), "outline_rect": [c.0, c.1]})).collect();
-        json!({"cells": cells, "instances": insts, "arrays": arrays, "parent_listed_first": self.parent_first, "two_parent_cells_second_moved_by_31_-17_and_with_an_abstract_view": self.two_parents, "stepped_outlines_same_bounding_box": self.stepped, "parents_not_listed_only_a_top_cell_instantiating_them": self.top_only, "relative_instances_handed_over_in_Layout_places": self.via_places})
+        json!({"cells": cells, "instances": insts, "arrays": arrays, "parent_listed_first": self.parent_first, "two_parent_cells_second_moved_by_31_-17_and_with_an_abstract_view": self.two_parents, "stepped_outlines_same_bounding_box": self.stepped, "parents_not_listed_only_a_top_cell_instantiating_them": self.top_only, "relative_instances_handed_over_in_Layout_places": self.via_places, "leaf_cells_wrap_raw_layouts": self.raw_cells})
     }
 }
 
@@ -243,13 +245,18 @@ pub fn run_program(p: &Program, listing: &[usize]) -> Result<Vec<ParentSeen>, St
             Outline::rect(*w as isize, *h as isize)
         }
         .map_err(|e| format!("setup: {e:?}"))?;
-        celldefs.push(Layout::new(format!("c{i}"), 0, o));
+        celldefs.push((Layout::new(format!("c{i}"), 0, o.clone()), o));
     }
     let nparents = if p.two_parents { 2 } else { 1 };
     // cells first unless parent_first; Ptrs are needed before the parents are built, so create them now and
     // push them into the list in the chosen order
-    for l in celldefs {
-        let c: tetris::cell::Cell = l.into();
+    for (i, (l, o)) in celldefs.into_iter().enumerate() {
+        let c: tetris::cell::Cell = if p.raw_cells {
+            let rawlay = raw::Layout { name: format!("c{i}"), insts: vec![], elems: vec![], annotations: vec![] };
+            tetris::cell::RawLayoutPtr { outline: o, metals: 0, lib: Ptr::new(raw::Library::new("wrapped", raw::Units::Nano)), cell: Ptr::new(raw::Cell::from(rawlay)) }.into()
+        } else {
+            l.into()
+        };
         cellptrs.push(Ptr::new(c));
     }
     let mut parents = Vec::new();
@@ -514,6 +521,7 @@ fn self_check() -> &'static Result<(), String> {
             stepped: false,
             top_only: false,
             via_places: false,
+            raw_cells: false,
             parent_first: false,
             two_parents: false,
         };
@@ -838,14 +846,16 @@ impl CaseDriver for Pair {
         let pr = REFL[c.free(4, "placed-refl")];
         let ps = 2 + c.free(2, "placed-size");
         let (side, align) = SIDE_ALIGN[c.free(8, "side-align")];
-        let sep = [Sep::None, Sep::Pitches(1), Sep::Pitches(5), Sep::SizeOf(4)][c.free(4, "sep")].clone();
+        let sep = [Sep::None, Sep::Pitches(1), Sep::Pitches(5), Sep::SizeOf(4), Sep::Pitches(-2)][c.free(5, "sep")].clone();
         let parent_first = c.flag("parent-first");
         let two_parents = c.flag("two-parents");
         let stepped = c.flag("stepped-outlines");
+        let raw_cells = c.flag("leaf-cells-wrap-raw-layouts");
         Program {
             stepped,
             top_only: false,
             via_places: false,
+            raw_cells,
             cells: PAIR_CELLS.to_vec(),
             insts: vec![
                 InstDef { cell: rs, rh: rr.0, rv: rr.1, loc: Loc::Abs(rl.0, rl.1) },
@@ -920,7 +930,7 @@ impl CaseDriver for Graph {
                 }
             } else {
                 let (side, align) = SIDE_ALIGN[c.cost(8, "side-align")];
-                let sep = [Sep::None, Sep::Pitches(2), Sep::SizeOf(2)][c.cost(3, "sep")].clone();
+                let sep = [Sep::None, Sep::Pitches(2), Sep::SizeOf(2), Sep::Pitches(-3)][c.cost(4, "sep")].clone();
                 Loc::Rel { to: tgt - 1, side, align, sep }
             };
             insts.push(InstDef { cell, rh: r.0, rv: r.1, loc });
@@ -930,7 +940,8 @@ impl CaseDriver for Graph {
         // the parents reachable only through a `top` cell (costed)
         let top_only = c.cost(2, "parents-unlisted-below-a-top-cell") == 1;
         let via_places = c.cost(2, "relative-instances-handed-over-as-placeables") == 1;
-        Program { cells: GRAPH_CELLS.to_vec(), insts, arrays: vec![], parent_first: false, two_parents, stepped, top_only, via_places }
+        let raw_cells = c.cost(2, "leaf-cells-wrap-raw-layouts") == 1;
+        Program { cells: GRAPH_CELLS.to_vec(), insts, arrays: vec![], parent_first: false, two_parents, stepped, top_only, via_places, raw_cells }
     }
     fn check(&self, p: &Program, key: &str, cx: &mut Cx) {
         let nrel = p.insts.iter().filter(|d| matches!(d.loc, Loc::Rel { .. })).count();
@@ -1030,7 +1041,7 @@ impl CaseDriver for Arr {
         } else {
             None
         };
-        Program { cells: GRAPH_CELLS.to_vec(), insts, arrays: vec![ArrayDef { cell, count, pitch, inner, inner2, rh: r.0, rv: r.1, at }], parent_first: false, two_parents, stepped, top_only: false, via_places: false }
+        Program { cells: GRAPH_CELLS.to_vec(), insts, arrays: vec![ArrayDef { cell, count, pitch, inner, inner2, rh: r.0, rv: r.1, at }], parent_first: false, two_parents, stepped, top_only: false, via_places: false, raw_cells: false }
     }
     fn check(&self, p: &Program, key: &str, cx: &mut Cx) {
         let a = &p.arrays[0];
@@ -1106,7 +1117,7 @@ impl CaseDriver for Long {
         if shape == 3 {
             insts[0].loc = Loc::Rel { to: n - 1, side: S::Right, align: S::Bottom, sep: Sep::None };
         }
-        (shape, Program { cells: GRAPH_CELLS.to_vec(), insts, arrays: vec![], parent_first: false, two_parents: false, stepped: false, top_only: false, via_places: false })
+        (shape, Program { cells: GRAPH_CELLS.to_vec(), insts, arrays: vec![], parent_first: false, two_parents: false, stepped: false, top_only: false, via_places: false, raw_cells: false })
     }
     fn check(&self, case: &(usize, Program), key: &str, cx: &mut Cx) {
         let p = &case.1;
